@@ -472,7 +472,7 @@ impl Property for C07 {
     const ID: &'static str = "C07";
 
     fn rule() -> String {
-        "(S1) proptest-generated concurrent read programs: 2-16 reader threads over one opened content pack holding 48-56 lz4/lzma/zstd clusters of 4095 small blobs (more clusters than the 40 cache slots and the 8 pool threads; 5-25 decode chunks per cluster), op lists of whole reads, get_slice, streamed reads with small buffers and nested cuts; patterns {independent lists, every thread the same list, sweeps over all clusters forcing evictions while regions are held}; a seeded perturbation plan injects yields / 20us / 200us / 2ms sleeps at the cfg(jubako_verif) schedule points (before/after length publication, reader wake-up and slice, cluster cache lock, plain-reader construction). Oracle: every read returns exactly the model bytes (derived from the content index), every thread finishes. (S2) bounded exhaustive: the real SeekableDecoder over a harness-owned producer that releases chunk k only when told; every interleaving of {release chunk 1..3 in order} with {start reader r} for 2-3 readers (140 schedules for 3+3) x range triples drawn from the set of ranges whose ends sit on the chunk boundaries +-1, through get_slice and through stream reads; a step only ends when its publication / the reader's entry into the wait was observed through the hooks. Oracle: exact bytes; after the last release every reader returns within 5 s (else lost wake-up). Non-trivial = S1: at least 2 threads and a plan strength > 0 touching >40 clusters or the same contents; S2: a schedule in which at least one reader had to wait for a publication; distinct by (pattern, threads, compression, plan) / (ranges, schedule).".into()
+        "(S1) proptest-generated concurrent read programs: 2-16 reader threads over one opened content pack holding 48-56 lz4/lzma/zstd clusters of 4095 small blobs (more clusters than the 40 cache slots and the 8 pool threads; 5-25 decode chunks per cluster), op lists of whole reads, get_slice, streamed reads with small buffers and nested cuts; patterns {independent lists, every thread the same list, sweeps over all clusters forcing evictions while regions are held}; a seeded perturbation plan injects yields / 20us / 200us / 2ms sleeps at the cfg(jubako_verif) schedule points (before/after length publication, reader wake-up and slice, cluster cache lock, plain-reader construction). Oracle: every read returns exactly the model bytes (derived from the content index), every thread finishes. (S2) bounded exhaustive: the real SeekableDecoder over a harness-owned producer that releases chunk k only when told; every interleaving of {release chunk 1..3 in order} with {start reader r} for 2-3 readers (140 schedules for 3+3) x range triples drawn from the set of ranges whose ends sit on the chunk boundaries +-1, through get_slice and through stream reads; a step only ends when its publication / the reader's entry into the wait was observed through the hooks. Oracle: exact bytes; after the last release every reader returns within 5 s (else lost wake-up). Non-trivial = S1: at least 2 threads and a plan strength > 0 touching >40 clusters or the same contents; S2: a schedule in which at least one reader had to wait for a publication; distinct by (pattern, threads, compression, plan) / (ranges, schedule). (S3) readers that are tasks of a rayon thread pool (1-6 threads, or rayon's global pool), at least as many readers as pool threads, each first asking for a cluster nobody has decoded yet; the case itself has no timeout: a pool whose workers all wait for a decoder that cannot run is reported by the engine's blocked-forever criterion.".into()
     }
 
     fn assumptions() -> Vec<String> {
